@@ -211,7 +211,7 @@ def replay(cases_path, out_path):
 
 WORDS = ["total", "Total", "TOTAL", "price ($)", "first name", "2024", "__x__", "a__1", "a__10", "col3_", "sum", "Max", "T",
          "cols", "column_names", "class", "def", "none", "None", "", " ", "_", "é", "ß", "İstanbul", "Kelvin K", "naïve café",
-         "x" * 60, "tab\there", "new\nline", "a.b", "a-b", "a b", "a  b", "A_B", "名前", "emoji 😀", "²", "1", "copy", "name", "shape"]
+         "x" * 60, "col0_x", "col 3 (raw)", "col7_backup", "col1_", "COL2_", "tab\there", "new\nline", "a.b", "a-b", "a b", "a  b", "A_B", "名前", "emoji 😀", "²", "1", "copy", "name", "shape"]
 
 
 def record(seed, n, out_path):
